@@ -2,8 +2,8 @@
    Proofs_*.v.  Model: C14/Model.v (from middleware/resolver/dnssec/*.go);
    constants and tables: Gen/C14.v (regenerated from /repo on every run). *)
 From Coq Require Import Sorting.Sorted Sorting.Permutation.
-From Sdns Require Import Common.Base Gen.C14 C14.Model
-  C14.Proofs_rsa C14.Proofs_b64 C14.Proofs_keytag C14.Proofs_rsamd5 C14.Proofs_canon C14.Proofs_verify C14.Proofs_offset C14.Proofs_walk.
+From Sdns Require Import Common.Base Common.GoList Gen.C14 C14.Model
+  C14.Proofs_rsa C14.Proofs_b64 C14.Proofs_keytag C14.Proofs_rsamd5 C14.Proofs_canon C14.Proofs_verify C14.Proofs_offset C14.Proofs_walk C14.Proofs_loops.
 Open Scope N_scope.
 
 (* (1) Key tag.  For every DNSKEY of every algorithm but RSAMD5 and every key
@@ -211,3 +211,63 @@ Theorem admitted_digests_are_the_documented_set : forall a,
              (is_supported_ds_digest a = true <-> ds_digest_hash a <> None).
 Proof. exact supported_digests_documented. Qed.
 Print Assumptions admitted_digests_are_the_documented_set.
+
+(* (7) Source ties.  The loops and byte-level helpers of the Go code, as the translator reads them
+   from /repo on every run (Gen/C14.v), compute what the model's functions compute: a change of the
+   Go loop changes the generated Fixpoint, and these are re-checked against it.  Budgets (fuel) are
+   stated: with more budget than the input is long the generated function has a result. *)
+Open Scope Z_scope.
+
+(* KeyTag: the octet sum over out[:decoded] is the model's per-chunk accumulation (even offsets shift) *)
+Theorem keytag_octet_sum_loop_is_model : forall sum out decoded, 0 <= decoded <= go_len out ->
+  go_KeyTag_loop2_run sum out decoded = (GoNext, (kt_acc sum true (go_slice_to out decoded), out, decoded)).
+Proof. exact gen_keytag_octet_sum. Qed.
+Print Assumptions keytag_octet_sum_loop_is_model.
+
+(* rsamd5KeyTag: the window of the last three octets and the saturating count *)
+Theorem rsamd5_tail_loop_is_model : forall out t0 t1 t2 seen decoded, 0 <= decoded <= go_len out -> 0 <= seen ->
+  go_rsamd5KeyTag_loop2_run out [t0; t1; t2] seen decoded =
+  (let t := fold_left tail3_push (go_slice_to out decoded) ([t0; t1; t2], Z.to_N seen) in
+   (GoNext, (out, fst t, Z.of_N (snd t), decoded))).
+Proof. exact gen_rsamd5_tail. Qed.
+Print Assumptions rsamd5_tail_loop_is_model.
+
+(* fillKeyTagChunk: how much material was copied and how much text was consumed *)
+Theorem fill_key_tag_chunk_is_model : forall fuel dst encoded, (length encoded < fuel)%nat ->
+  go_fillKeyTagChunk fuel dst encoded =
+  (let fc := fill_chunk fuel encoded [] (length dst) in
+   Some (Z.of_nat (length (fst fc)), go_len encoded - go_len (snd fc))).
+Proof. exact gen_fill_key_tag_chunk. Qed.
+Print Assumptions fill_key_tag_chunk_is_model.
+
+(* oversizedKeyMaterial: the bounded walk returns true exactly where the model's does *)
+Theorem oversized_walk_loop_is_model : forall pk,
+  fst (go_oversizedKeyMaterial_loop1_run pk (Z.of_N key_material_limit) 0) =
+  if oversized_walk pk 0 then GoRet true else GoNext.
+Proof. exact gen_oversized_walk. Qed.
+Print Assumptions oversized_walk_loop_is_model.
+
+(* rsaVerifyPKCS1v15: after expected[1] = 1 the loop writes exactly size - tLen - 3 octets 0xFF from offset 2 *)
+Theorem pkcs1_ff_run_loop_is_model : forall fuel (s t : nat), (t + 3 <= s)%nat -> (s < fuel)%nat ->
+  go_rsaVerifyPKCS1v15_loop1_run fuel (Z.of_nat s) (Z.of_nat t) (0%N :: 1%N :: repeat 0%N (s - 2)) =
+  (GoNext, (Z.of_nat s, Z.of_nat t, 0%N :: 1%N :: repeat 255%N (s - t - 3) ++ repeat 0%N (t + 1), Z.of_nat s - Z.of_nat t - 1)).
+Proof. exact gen_pkcs1_ff_run. Qed.
+Print Assumptions pkcs1_ff_run_loop_is_model.
+
+(* wireRdataOffset: the label walk and the ten fixed octets *)
+Theorem wire_rdata_offset_is_model : forall fuel w, (length w < fuel)%nat ->
+  go_wireRdataOffset fuel w = Some (match wire_rdata_offset w with Some o => (Z.of_N o, true) | None => (0, false) end).
+Proof. exact gen_wire_rdata_offset. Qed.
+Print Assumptions wire_rdata_offset_is_model.
+
+(* canonicalRRset: the loop that drops a wire equal to its predecessor *)
+Theorem canonical_dedup_loop_is_model : forall wires buf,
+  go_canonicalRRset_loop3_run wires buf = (GoNext, (wires, buf ++ concat (dedup_adjacent None wires))).
+Proof. exact gen_canonical_dedup. Qed.
+Print Assumptions canonical_dedup_loop_is_model.
+
+(* internal/dnsutil.NameInZone with its escapedDot (backslashes counted backwards = escape state scanned forwards) *)
+Theorem name_in_zone_is_model : forall fuel name zone, (length name < fuel)%nat ->
+  go_NameInZone fuel name zone = Some (name_in_zone name zone).
+Proof. exact gen_name_in_zone. Qed.
+Print Assumptions name_in_zone_is_model.
